@@ -26,6 +26,8 @@ type Script struct {
 	body     []string
 	nameSeq  int
 	defCache map[string]string
+	pure     bool     // pure-term mode: no definitions, no assumptions; used to turn a closure body into one term
+	pureAsm  []string // assumptions met in pure mode (type invariants of loaded values etc.); dropped
 }
 
 func NewScript() *Script {
@@ -49,6 +51,9 @@ func q(name string) string {
 
 // Fresh declares a new unconstrained constant.
 func (s *Script) Fresh(hint string, sort string) string {
+	if s.pure {
+		panic(unsupported("fresh value inside a closure that must be turned into a term (" + hint + ")"))
+	}
 	s.nameSeq++
 	n := q(fmt.Sprintf("%s!%d", sanitize(hint), s.nameSeq))
 	s.decls = append(s.decls, fmt.Sprintf("(declare-const %s %s)", n, sort))
@@ -57,7 +62,7 @@ func (s *Script) Fresh(hint string, sort string) string {
 
 // Define introduces a named abbreviation for a term (keeps queries linear in program size).
 func (s *Script) Define(hint string, sort string, term string) string {
-	if isAtom(term) {
+	if isAtom(term) || s.pure {
 		return term
 	}
 	key := sort + "\x00" + term
@@ -74,6 +79,10 @@ func (s *Script) Define(hint string, sort string, term string) string {
 
 func (s *Script) Assume(term string) {
 	if term == "true" {
+		return
+	}
+	if s.pure {
+		s.pureAsm = append(s.pureAsm, term)
 		return
 	}
 	s.body = append(s.body, "(assert "+term+")")
@@ -423,6 +432,24 @@ func Solve(o *Obligation, timeoutS int, confirm bool) *Result {
 		r.Status = st
 		r.Solver = sp.name
 	}
+	if want == "unsat" && r.Status != "unsat" && r.Status != "sat" && len(o.GetVals) > 0 {
+		// no counter-model (quantifiers): look for a *candidate* input in the relaxation without quantified
+		// hypotheses.  It proves nothing; the replay on the real code decides whether it is a failing input.
+		var qf []string
+		for _, l := range strings.Split(query, "\n") {
+			if strings.HasPrefix(l, "(assert") && (strings.Contains(l, "(forall ") || strings.Contains(l, "(exists ")) && !strings.HasPrefix(l, "(assert (not ") {
+				continue
+			}
+			qf = append(qf, l)
+		}
+		st, out, secs := runSolver(solvers[0], strings.Join(qf, "\n"), 5, o.Name+".candidate")
+		r.Seconds += secs
+		r.Tried = append(r.Tried, fmt.Sprintf("candidate/%s:%s:%.2fs", solvers[0].name, st, secs))
+		if st == "sat" {
+			r.Model = parseModel(out)
+			r.Output += "\n; candidate model from the quantifier-free relaxation:\n" + out
+		}
+	}
 	if confirm && r.Status == "unsat" && want == "unsat" {
 		// a second, independent solver must agree
 		for _, sp := range solvers {
@@ -459,7 +486,7 @@ func parseModel(out string) map[string]string {
 	m := map[string]string{}
 	// strip outer paren
 	for _, mm := range modelRe.FindAllStringSubmatch(rest, -1) {
-		m[mm[1]] = normVal(mm[2])
+		m[strings.Trim(mm[1], "|")] = normVal(mm[2])
 	}
 	return m
 }
